@@ -45,7 +45,14 @@ for rel, ln, row, units in sites:
     ls, le = map(int, row["left"].split(":"))
     rs, re_ = map(int, row["right"].split(":"))
     L, R = src[ls:le].decode(), src[rs:re_].decode()
-    new = src[:ls] + ("(" + R + ")").encode() + src[le:rs] + ("(" + L + ")").encode() + src[re_:]
+    mid = src[le:rs]
+    if kind == "cmp":
+        flip = {"<": ">", "<=": ">=", ">": "<", ">=": "<=", "==": "==", "!=": "!="}
+        op = row.get("op", "")
+        if op not in flip:
+            continue
+        mid = (" " + flip[op] + " ").encode()
+    new = src[:ls] + ("(" + R + ")").encode() + mid + ("(" + L + ")").encode() + src[re_:]
     open(os.path.join(scratch, rel), "wb").write(new)
     for un in units:
         env = dict(os.environ, VERIF_REPO=scratch)
